@@ -441,7 +441,8 @@ impl Gen {
 			}
 			self.regime_left -= 1;
 		} else if self.rng.chance(0.04) {
-			self.shape = self.rng.below(8);
+			// (shape 14: whipsaw -- large moves of alternating direction on consecutive bars)
+			self.shape = if self.rng.chance(0.12) { 14 } else { self.rng.below(8) };
 		}
 		if self.rng.chance(if self.long_regimes { 0.002 } else { 0.01 }) {
 			// abrupt change of scale
@@ -466,6 +467,7 @@ impl Gen {
 			7 => self.cur - s * 0.01 * u,                     // monotone down
 			8..=9 => self.cur * (1.0 + 0.004 * (0.5 + u)),    // steady rally (every bar a new high, no pullback)
 			10..=11 => self.cur * (1.0 - 0.004 * (0.5 + u)),  // steady decline
+			14 => self.cur * if self.calls % 2 == 0 { 1.0 + 0.08 * (0.3 + u) } else { 1.0 / (1.0 + 0.08 * (0.3 + u)) }, // whipsaw
 			12 => self.cur * if self.calls % 3 < 2 { 1.0 + 0.006 * (0.8 + 0.4 * u) } else { 1.0 - 0.003 * (0.8 + 0.4 * u) }, // rally with ripple
 			_ => self.cur * if self.calls % 3 < 2 { 1.0 - 0.006 * (0.8 + 0.4 * u) } else { 1.0 + 0.003 * (0.8 + 0.4 * u) },  // decline with ripple
 		};
